@@ -5,6 +5,55 @@ import os
 VERIF = os.path.dirname(os.path.dirname(os.path.abspath(__file__)))
 
 CHECKS = {
+    "C08": dict(
+        technique="TLA+ spec of the coordinate maps and per-kind strand conversion (Coords.tla); TLC exhaustive check of the sequence-level theorem (MC_Coords); TLC-emitted cases replayed into the real Gene loader; CoordsTrace.tla validation of every shipped variant x build and of generated databases, incl. the anchors handed to indelpost / long-read keys",
+        text="TLC proves on all short sequences/alignment strings/variants that applying the loaded variant to the genome-oriented reference equals applying the written variant to RefSeq; the same theorem, reference-allele match, map inverse, notation round trip and insertion-anchor agreement are validated by TLC for all 4,620 shipped (variant, build) pairs and thousands of generated databases loaded by the real code.",
+        design_ref="DESIGN.md §4 C08",
+        note="Trusted: TLC, harness/gen_db.py (generator + independent YAML reader + projection). Variants touching an alignment gap are undecided (none in shipped data).",
+        engine="Coords",
+    ),
+    "C09": dict(
+        technique="TLA+ state machine of the catalogue loader (CatalogueBuild.tla: ReadAlleles, BuildConfigs, GroupMajors, BuildPartials, DedupMinors); TLC exhaustive over small allele tables (MC_Catalogue); replay of TLC tables into the real loader and CatalogueTrace.tla validation of all shipped databases x builds and hostile generated databases",
+        text="The loader's phases are specified and model-checked against the catalogue invariants (reachable, majors distinct, core iff functional, minors distinct, config exists, partial keeps retained, build independent); the projected catalogue of the real Gene loader is validated by TLC against the invariants and against the spec's partition for shipped and generated hostile databases.",
+        design_ref="DESIGN.md §4 C09",
+        note="Trusted: TLC, harness/gen_db.py. Allele name strings are checked for uniqueness/resolvability only.",
+        engine="CatalogueBuild",
+    ),
+    "C10": dict(
+        technique="TLA+ state machine of genotype() over stage oracles (Pipeline.tla); TLC exhaustive (MC_Pipeline); trace validation (PipelineTrace.tla) of real genotype() runs whose stage returns are recorded and replayed as Pipeline actions",
+        text="Every recorded real run on simulated noisy samples is explained step by step by the spec's actions: structures processed best first, major scores carry the structure difference, the refinement receives exactly the within-gap candidates, minor scores carry the major difference and are rescaled, the report is exactly the argmin band, best first, chains consistent, errors mean no report.",
+        design_ref="DESIGN.md §4 C10",
+        note="Trusted: TLC, harness/pipeline.py recorders, harness/gen_reads.py, harness/gen_db.py. Candidates within 3e-4 of a threshold are undecided.",
+        engine="Pipeline",
+    ),
+    "C11": dict(
+        technique="TLA+ spec of the diplotype heuristic as phase actions + the property as postconditions (Diplotype.tla); TLC exhaustive over all bags/orders of 0-6 alleles (MC_Diplotype); TLC-emitted universe and random bags run through the real estimate_diplotype and validated by DiplotypeTrace.tla against the postconditions",
+        text="TLC checks the postconditions on the spec's own algorithm for every order of every small bag; ~22k (quick) real estimate_diplotype calls are validated against the same postconditions (each copy once, both haplotypes non-empty, deletion shown, names are majors, tandems adjacent, natural order, order-free for <= 2).",
+        design_ref="DESIGN.md §4 C11",
+        note="Trusted: TLC, harness/toygen.py. profile.display_format name rendering is not exercised.",
+        engine="Diplotype",
+    ),
+    "C12": dict(
+        technique="TLA+ spec of the writers and their parse-back (Output.tla); TLC exhaustive (MC_Output); TLC-emitted solution lists and random lists written by the real writers, parsed by a minimal TSV/VCF reader and validated by OutputTrace.tla",
+        text="Parse-back identities are model-checked on the spec's writers; the text produced by the real write_decomposition / write_vcf / simple output for thousands of solution lists (added, lost, indel variants, differing solutions) is validated against Rows/GT/MA/MI/REF-ALT computed by the spec.",
+        design_ref="DESIGN.md §4 C12",
+        note="Trusted: TLC, the minimal file parser in harness/checks/c12.py. Two VCF-writer defects pinned by the recorded NA10860.vcf.expected are known findings.",
+        engine="Output",
+    ),
+    "C16": dict(
+        technique="TLA+ spec of VCF records -> evidence (VcfInput.tla); TLC exhaustive over all short records and genotypes (MC_VcfInput); every MC file written as a real tabix VCF and loaded by the real Sample, validated by VcfTrace.tla; shipped and generated catalogues written as standard VCF records incl. genotype() end to end",
+        text="All small records x genotypes x pairs are model-checked against support-proportional / reference-reduced / ignored-are-no-ops / re-expression; the real loader's Coverage for the same files and for every catalogued allele of shipped/generated genes is validated by TLC, including the final call reference/allele.",
+        design_ref="DESIGN.md §4 C16",
+        note="Trusted: TLC, harness VCF writer, harness/gen_db.py. Left-normalised equivalents of indels in repeats are not asserted.",
+        engine="VcfInput",
+    ),
+    "C19": dict(
+        technique="TLA+ state machine of the no-data guards over routes and output kinds (Guards.tla); TLC exhaustive (MC_Guards) incl. design-level counterexamples realised as BAMs; GuardsTrace.tla validation of real genotype() runs on simulated no-data samples",
+        text="TLC explores guards x routes x outputs x facts; real runs on BAMs that avoid the locus, cover it below the minimum, cover only the pseudogene or avoid the neutral region (BAM profile, named profile, user structure; aldy/vcf/simple outputs; multi-gene) are validated against NoCallFromNoData, ErrorIsExplained, SimpleOutputEmptyLine, PseudogeneOnlyIsDeletion.",
+        design_ref="DESIGN.md §4 C19",
+        note="Trusted: TLC, harness/gen_reads.py, facts recomputed by the harness from the reads it wrote. Depths within 3% of the minimum are excluded.",
+        engine="Guards",
+    ),
     "C02": dict(
         technique="TLA+ semantic model of the major stage (MajorModel.tla + Filter.tla); TLC trace validation (MajorTrace.tla) brute-forcing every admissible allele multiset for each recorded real estimate_major call",
         text="Every recorded call of the real estimate_major (planted/noisy evidence over the toy gene and shipped catalogues, rule-witness tables, gap 0/.1/.5) is validated by TLC against the "
@@ -56,6 +105,13 @@ CHECKS = {
 }
 
 ENGINES = [
+    dict(name="Coords", path="spec/Coords.tla", serves_properties=["C08"], kind_free_text="TLA+ coordinate maps / strand conversion; mc/MC_Coords, gen/CoordsGen, trace/CoordsTrace"),
+    dict(name="CatalogueBuild", path="spec/CatalogueBuild.tla", serves_properties=["C09"], kind_free_text="TLA+ loader state machine; mc/MC_Catalogue, gen/CatalogueGen, trace/CatalogueTrace"),
+    dict(name="Pipeline", path="spec/Pipeline.tla", serves_properties=["C10"], kind_free_text="TLA+ genotype() state machine; mc/MC_Pipeline, trace/PipelineTrace"),
+    dict(name="Diplotype", path="spec/Diplotype.tla", serves_properties=["C11"], kind_free_text="TLA+ diplotype heuristic + postconditions; mc/MC_Diplotype, gen/DiplotypeGen, trace/DiplotypeTrace"),
+    dict(name="Output", path="spec/Output.tla", serves_properties=["C12"], kind_free_text="TLA+ writers and parse-back; mc/MC_Output, gen/OutputGen, trace/OutputTrace"),
+    dict(name="VcfInput", path="spec/VcfInput.tla", serves_properties=["C16"], kind_free_text="TLA+ VCF record -> evidence; mc/MC_VcfInput, gen/VcfInputGen, trace/VcfTrace"),
+    dict(name="Guards", path="spec/Guards.tla", serves_properties=["C19"], kind_free_text="TLA+ no-data guards; mc/MC_Guards, trace/GuardsTrace"),
     dict(name="MajorModel", path="spec/MajorModel.tla", serves_properties=["C02", "C15"], kind_free_text="TLA+ semantic layer of major.py; trace/MajorTrace"),
     dict(name="Filter", path="spec/Filter.tla", serves_properties=["C15", "C02", "C04"], kind_free_text="TLA+ spec of the quality/threshold filters; mc/MC_Filter, trace/FilterTrace"),
     dict(name="CNModel", path="spec/CNModel.tla", serves_properties=["C03"], kind_free_text="TLA+ semantic layer of cn.py (+ CNRoute.tla); trace/CNTrace, trace/CNRouteTrace"),
